@@ -26,9 +26,18 @@ def main() -> int:
         return 2
     try:
         mod = importlib.import_module(f"prop_{pid}")
-        ctx = Ctx(pid, MODULES[pid], args.tier, seed)
         if args.replay:
-            return mod.replay(ctx, args.replay)
+            # a replay file records the tier and seed of the run that produced it: the run is deterministic, so
+            # re-running it reproduces the violation (same hash) as long as the tree is in the same state
+            import json
+            rp = json.load(open(args.replay))
+            print(f"[{pid}] replaying {args.replay}: {rp.get('what', '')[:300]}")
+            ctx = Ctx(pid, MODULES[pid], rp.get("tier", args.tier), int(rp.get("seed", seed)))
+            rc = mod.main(ctx)
+            same = os.path.exists(args.replay) and rc == 1
+            print(f"[{pid}] replay {'REPRODUCED a violation' if same else 'did not reproduce (tree changed or fixed)'}")
+            return rc
+        ctx = Ctx(pid, MODULES[pid], args.tier, seed)
         return mod.main(ctx)
     except InfraError as e:
         print(f"[{pid}] INFRASTRUCTURE FAILURE: {e}", file=sys.stderr)
